@@ -16,6 +16,8 @@ def run(ck):
     cases = ck.path("cases.ndjson")
     cfg = open(os.path.join(vf.SPEC, "MC_Algebra.%s.cfg" % ck.tier)).read().replace("Seed = 1", "Seed = %d" % (ck.seed % 1000))
     ck.tlc("AlgebraMC", cfg, tag="MC_Algebra." + ck.tier, env={"VF_OUT": cases}, timeout=1500)
+    # unbounded, machine-checked (TLAPS): the composition law for N = 1 and (row-wise) N = 2 over ALL integers
+    ck.tlaps("AlgebraProofs", [], timeout=900)
     cs = vf.read_ndjson(cases)
     ck.sample({"case": [c for c in cs if c["kind"] == "pair" and c["n"] == 2][7]})
     ck.bound("N1", "all matrices with entries -3..3, all pairs")
